@@ -22,13 +22,15 @@ TNew == /\ IsEv("new") /\ ~open
         /\ UNCHANGED <<file, fileEnd, pos, blocked, perr, faultable, cutLen>>
 \* C03: where the harness ran the same history on an uncached reader, the reply must be identical
 Same == "same" \in DOMAIN Ev => Ev.same
+\* C10: HasEOF reports false for every proper prefix of a stream
+THasEOF == IsEv("haseof") /\ Ev.v = FALSE /\ UNCHANGED rvars
 TRead == IsEv("read") /\ Read(Ev.n, Ev) /\ Same
 TSeek == IsEv("seek") /\ Seek(<<Ev.off[1], Ev.off[2]>>, [err |-> Ev.err, begin |-> <<Ev.begin[1], Ev.begin[2]>>, end |-> <<Ev.end[1], Ev.end[2]>>]) /\ Same
 TBlocked == IsEv("blocked") /\ SetBlocked(Ev.v) /\ Same
 TSetCache == IsEv("setcache") /\ SetCache
 TClose == IsEv("close") /\ Close(Ev)
 
-Regular == Reset \/ TNew \/ TRead \/ TSeek \/ TBlocked \/ TSetCache \/ TClose
+Regular == Reset \/ THasEOF \/ TNew \/ TRead \/ TSeek \/ TBlocked \/ TSetCache \/ TClose
 RECURSIVE NextHdr(_)
 NextHdr(i) == IF i > Len(Trace) THEN i ELSE IF Trace[i].ev = "T" THEN i ELSE NextHdr(i + 1)
 Skip == /\ l <= Len(Trace) /\ ~ENABLED Regular
